@@ -547,6 +547,88 @@ fn test_tail_quantiles(which: Which, seed: u64, skipped: &mut u64) -> (u64, Opti
     (evals, None)
 }
 
+/// Restart equivalence of the rejection loop: a ziggurat candidate that is rejected in its
+/// wedge (2 words) must leave no trace -- the call has to continue exactly like a fresh call
+/// on the rest of the stream.  Stream A = [wedge candidate of a random layer, uniform 0
+/// (rejects: f[i+1] < pdf(x) is false inside the wedge), w2, ...]; stream B = the same words from w2 on.  Output bits and final stream
+/// position must agree.  In half of the runs w2 is forced into layer 0 (base strip or tail),
+/// the layer whose handling differs from all others.  Catches retry paths that skip a test
+/// ("no need to repeat the rectangle test on retries") without any statistics.
+/// Returns (runs, runs whose first candidate was indeed rejected, first failure).
+fn test_restart_equivalence(which: Which, n: u64, seed: u64) -> (u64, u64, Option<(String, Value)>) {
+    let (xt, _, _) = which.tables();
+    let mut sched = SimRng::new(mix(&[seed, 0x2E57A27]));
+    let mut rejected = 0u64;
+    for k in 0..n {
+        if k & 0x3fff == 0 {
+            mark_call(k);
+        }
+        let layer = 1 + below(&mut sched, 255) as u8; // 1..=255
+        let i = layer as usize;
+        // |u| in the wedge part of the layer: x[i+1]/x[i] < |u| < 1
+        let lo = xt[i + 1] / xt[i];
+        let t = lo + (1.0 - lo) * (0.02 + 0.96 * u01(&mut sched));
+        let two52 = (1u64 << 52) as f64;
+        let mant = match which {
+            Which::Norm => {
+                let mag = (((1.0 + t) * 0.5 * two52) as u64).min((1u64 << 52) - 1);
+                if below(&mut sched, 2) == 0 {
+                    mag
+                } else {
+                    (1u64 << 52) - mag
+                }
+            }
+            Which::Exp => ((t * two52) as u64).min((1u64 << 52) - 1),
+        };
+        let stream_seed = sched.word();
+        let force0 = below(&mut sched, 2) == 0;
+        let w2 = Inject::Zig { layer: 0, mant: sched.word() >> 12 };
+        let mut fa = vec![Fault { pos: 0, inject: Inject::Zig { layer, mant } }, Fault { pos: 1, inject: Inject::Word(0) }];
+        let mut fb = vec![];
+        if force0 {
+            fa.push(Fault { pos: 2, inject: w2 });
+            fb.push(Fault { pos: 2, inject: w2 });
+        }
+        let mut a = SimRng::with_faults(stream_seed, fa);
+        a.budget = 100_000;
+        let mut b = SimRng::with_faults(stream_seed, fb);
+        b.budget = 100_000;
+        b.word();
+        b.word();
+        let case = json!({"kind": "zig-restart", "which": which.name(), "n": n, "seed": seed, "run": k});
+        let xa = match guarded(|| sample_one(which, &mut a)) {
+            Caught::Ok(x) => x,
+            Caught::Panic { msg, loc } => return (k, rejected, Some((format!("panic: {msg} @ {loc}"), case))),
+            Caught::Budget(_) => return (k, rejected, Some(("word budget exceeded".into(), case))),
+        };
+        if a.pos < 3 {
+            continue; // the candidate was accepted (x below the wedge after rounding): nothing to compare
+        }
+        rejected += 1;
+        let xb = match guarded(|| sample_one(which, &mut b)) {
+            Caught::Ok(x) => x,
+            Caught::Panic { msg, loc } => return (k, rejected, Some((format!("panic: {msg} @ {loc}"), case))),
+            Caught::Budget(_) => return (k, rejected, Some(("word budget exceeded".into(), case))),
+        };
+        if xa.to_bits() != xb.to_bits() || a.pos != b.pos {
+            return (
+                k,
+                rejected,
+                Some((
+                    format!(
+                        "after a rejected wedge candidate (layer {layer}, mantissa {mant:#x}) the call returned {xa:e} at stream position {}, a fresh call on the rest of the stream returns {xb:e} at position {}{}",
+                        a.pos,
+                        b.pos,
+                        if force0 { " (retry word forced into layer 0)" } else { "" }
+                    ),
+                    case,
+                )),
+            );
+        }
+    }
+    (n, rejected, None)
+}
+
 /// bit-exact sign symmetry of the normal on paired words (m, 2^52 - m)
 fn test_symmetry(n: u64, seed: u64) -> Result<(u64, Option<String>), String> {
     let mut s = SimRng::new(seed);
@@ -688,6 +770,20 @@ impl Engine for ZigEngine {
                             res.samples.push(json!({"which": which.name(), "forced": "layer 0, tail mantissa", "N": nt, "D": o.d, "dkw_width": o.width}));
                         }
                     }
+                    {
+                        let nr = n / 2;
+                        let (runs, rej, bad) = test_restart_equivalence(which, nr, seed);
+                        res.evaluations += 2 * runs;
+                        res.inj("F3-forced-wedge-rejection", runs);
+                        res.fired("F3-forced-wedge-rejection", rej);
+                        res.stat_sum("restart_equivalence_runs", runs as f64);
+                        res.stat_sum("restart_equivalence_runs_rejected_as_intended", rej as f64);
+                        res.keys.push(hash_key(&[which.name(), "restart-equivalence"]));
+                        d.add(rej);
+                        if let Some((msg, case)) = bad {
+                            res.violations.push(mk_violation("replica-mismatch(restart)", format!("{}: {msg}", which.name()), which, case));
+                        }
+                    }
                     let mut skipped = 0;
                     let (ev, bad) = test_tail_quantiles(which, seed, &mut skipped);
                     res.stat_sum("tail_quantile_points", ev as f64);
@@ -745,6 +841,19 @@ impl Engine for ZigEngine {
                 let (o, v) = test_layer(which, i, n, seed)?;
                 println!("replay: {} forced layer {i}: D = {:.3e}, width {:.3e}", which.name(), o.d, o.width);
                 Ok(v.map(|m| vec![mk_violation("law(dkw,layer)", m, which, case.clone())]).unwrap_or_default())
+            }
+            "zig-restart" => {
+                let (_, rej, bad) = test_restart_equivalence(which, n, seed);
+                match bad {
+                    Some((msg, c)) => {
+                        println!("replay: {} restart equivalence: {msg}", which.name());
+                        Ok(vec![mk_violation("replica-mismatch(restart)", format!("{}: {msg}", which.name()), which, c)])
+                    }
+                    None => {
+                        println!("replay: {} restart equivalence: ok ({rej} rejected candidates compared)", which.name());
+                        Ok(vec![])
+                    }
+                }
             }
             "zig-tail-quantile" => {
                 let (_, bad) = test_tail_quantiles(which, seed, &mut 0);
